@@ -191,7 +191,11 @@ func getResidue(p *Program) (*bceResidue, error) {
 	if r, ok := residueCache[k]; ok {
 		return r, nil
 	}
-	r, err := runBCE(p.GOOS, p.GOARCH)
+	var ov map[string][]byte
+	if p.Norm != nil {
+		ov = p.Norm.Overlay
+	}
+	r, err := runBCE(p.GOOS, p.GOARCH, ov)
 	if err != nil {
 		return nil, err
 	}
